@@ -1,7 +1,7 @@
 (* Dispatch table of the extracted model executable: one command per modelled function.
    Model modules are required, not imported: every reference below is qualified. *)
 From FV Require Import Base.Prelude.
-From FV Require Model.FragTranslate Model.ScriptBlocks Model.MathFuncs gen.MathTable Cpp.IR Cpp.Exec Model.KindModel Model.Arith Model.LocalDataset Model.WordSubst Model.CppTypesModel Model.ExecState Cpp.EventLocal Model.Inject gen.Templates Cpp.Static Model.Lowering Cpp.FillConsistent Model.TreeSchema Model.CppLex Model.Consts Model.Binding Model.Collections gen.Collections Model.Shell gen.Runner_atlas_r21 gen.Runner_cms_r5 gen.Runner_cms_r7.
+From FV Require Model.FragTranslate Model.FragQuery Model.ScriptBlocks Model.MathFuncs gen.MathTable Cpp.IR Cpp.Exec Model.KindModel Model.Arith Model.LocalDataset Model.WordSubst Model.CppTypesModel Model.ExecState Cpp.EventLocal Model.Inject gen.Templates Cpp.Static Model.Lowering Cpp.FillConsistent Model.TreeSchema Model.CppLex Model.Consts Model.Binding Model.Collections gen.Collections Model.Shell gen.Runner_atlas_r21 gen.Runner_cms_r5 gen.Runner_cms_r7.
 
 Definition dispatch (cmd : string) (arg : sexp) : sexp :=
   if String.eqb cmd "c15.gen" then ScriptBlocks.run_gen arg
@@ -63,6 +63,8 @@ Definition dispatch (cmd : string) (arg : sexp) : sexp :=
   else if String.eqb cmd "c06.tables" then Model.Collections.run_tables_wire gen.Collections.coll_env
   else if String.eqb cmd "c01.fragrow" then FragTranslate.run_fragrow arg
   else if String.eqb cmd "c01.denote_row" then FragTranslate.run_denote_row arg
+  else if String.eqb cmd "c01.fragq" then FragQuery.run_fragq arg
+  else if String.eqb cmd "c01.denote_q" then FragQuery.run_denote_q arg
   else if String.eqb cmd "c12.audit" then MathFuncs.audit MathTable.math_env MathTable.documented
   else if String.eqb cmd "c16.atlas_r21" then Shell.run_wire Runner_atlas_r21.script Shell.pkg_atlas Shell.slots_atlas arg
   else if String.eqb cmd "c16.cms_r5" then Shell.run_wire Runner_cms_r5.script Shell.pkg_cms Shell.slots_cms arg
